@@ -100,6 +100,8 @@ class World:
     # ------------------------------------------------------------------ steps
     def step(self, s):
         op = s[0]
+        if any(e.kind in ('bs', 'arr') and len(e.shadow) > 6000 for e in self.pool):
+            return   # exponential growth through self-appends/repeats: nothing more to learn from this history
         self.log.append(s if len(str(s)) < 120 else [s[0], '...'])
         if op == 'create':
             self.create(*s[1:])
